@@ -49,6 +49,17 @@ def Err.kind : Err → String
 
 abbrev R (α : Type) := Except Err α
 
+/-- a guard: `ensure c e` fails with `e` unless `c` holds.  Handlers are written as flat chains of
+binds over `ensure` / `loadSome` (no `if .. then throw ..` statements) so that
+`h : handler .. = .ok ..` unfolds into one conjunction of facts. -/
+def ensure (c : Bool) (e : Err) : R Unit := if c then .ok () else .error e
+
+/-- unwrap an optional value or fail with `e` -/
+def loadSome {α} (o : Option α) (e : Err) : R α :=
+  match o with
+  | some a => .ok a
+  | none => .error e
+
 def U128.max : Nat := 2 ^ 128 - 1
 def U64.max : Nat := 2 ^ 64 - 1
 def U32.max : Nat := 2 ^ 32 - 1
